@@ -59,7 +59,21 @@ class History(object):
         return MZ.install(spec, evolutions=evos)
 
     def describe(self):
-        return {'v0': self.v0, 'steps': self.steps}
+        d = {'v0': self.v0, 'steps': self.steps}
+        if self.deps:
+            d['deps'] = [[list(k), v] for k, v in sorted(
+                self.deps.items(), key=lambda kv: str(kv[0]))]
+        return d
+
+
+def deps_from_json(lst):
+    """Inverse of the 'deps' entry of History.describe()."""
+    out = {}
+    for k, v in lst or []:
+        out[tuple(k)] = {attr: [tuple(t) if isinstance(t, list) else t
+                                for t in targets]
+                         for attr, targets in v.items()}
+    return out
 
 
 def canonical_state(j=None, alias='default'):
